@@ -151,8 +151,15 @@ func TypeOf(e *Expr, declared Ty, sc [][]Ty) Ty {
 	return declared
 }
 
-// Unbool wraps a possibly boolean-valued integer expression in `+ 0`.
+// Unbool wraps a possibly boolean-valued integer expression in `+ 0`, and replaces a bare NULL
+// literal (the engine evaluates `x IN (SELECT NULL …)` to FALSE: known finding) by a typed one.
 func Unbool(e *Expr, declared Ty, sc [][]Ty) *Expr {
+	if e.Op == "lit" && e.V.Null {
+		if declared == TStr {
+			return Bin("coalesce", Lit(Null()), Ite(Lit(Int(0)), Lit(Str("a")), Lit(Null())))
+		}
+		return Arith("add", Lit(Null()), Lit(Int(0)))
+	}
 	if TypeOf(e, declared, sc) == TBool {
 		return Arith("add", e, Lit(Int(0)))
 	}
